@@ -120,6 +120,7 @@ class Unit:
         self.items = []      # ('copy', file, kind, name, mode) | ('fn', FnSpec) | ('trait', file, name, text) | ('text', lines)
         self.rewrites = []
         self.path = None
+        self.noderive = False
 
     def fns(self):
         return [it[1] for it in self.items if it[0] == 'fn']
@@ -177,6 +178,9 @@ def parse(path, include_dir):
                     i += 1
                 i += 1
                 u.items.append(('lemma', p[0], p[1:], block))
+                continue
+            if d == '@noderive':
+                u.noderive = True
                 continue
             if d == '@unit':
                 u.name = rest
